@@ -161,10 +161,10 @@ Qed.
 Lemma get_app_new (h : list audit) x : get (h ++ [x]) (List.length h) = x.
 Proof. unfold get. rewrite app_nth2 by lia. rewrite Nat.sub_diag. reflexivity. Qed.
 
-Lemma frame_inv c is_wf d name files shell cr body s0 :
+Lemma frame_inv c is_wf d name files shell cr cf body s0 :
   c_sharing c = false -> c_prov c = true ->
   (forall s, Inv (c_md c) s (body s)) ->
-  Inv (c_md c) s0 (frame c is_wf d name files shell cr body s0).
+  Inv (c_md c) s0 (frame c is_wf d name files shell cr cf body s0).
 Proof.
   intros Sh P Hbody. unfold frame, alloc. rewrite Sh. cbn [andb].
   set (h0 := heap s0). set (r := List.length h0). set (h1 := h0 ++ [get h0 0]).
@@ -185,7 +185,7 @@ Proof.
   set (inner := if c_prov c && negb (c_async c && is_wf) && cr then (s3, [], [], true)
                 else let '(s4, m_task) := if c_prov c && negb (c_async c && is_wf)
                                           then audit_task c r name files shell s3 else (s3, []) in
-                     let '(s5, m_body, r_body, err) := body s4 in (s5, m_task ++ m_body, r_body, err)).
+                     let '(s5, m_body, r_body, err) := body s4 in (s5, m_task ++ m_body, r_body, err || cf)).
   assert (Hinner : Inv (c_md c) s3 inner).
   { unfold inner. destruct (c_prov c && negb (c_async c && is_wf) && cr); [apply Inv_nil|].
     set (tk := if c_prov c && negb (c_async c && is_wf) then audit_task c r name files shell s3 else (s3, [])).
@@ -260,17 +260,17 @@ Lemma Inv_flag md s s' ms rs e e' : Inv md s (s', ms, rs, e) -> Inv md s (s', ms
 Proof. cbn. auto. Qed.
 
 Lemma task_ind2 (P : task -> Prop) :
-  (forall d n f sh fl cr, P (Leaf d n f sh fl cr)) ->
+  (forall d n f sh fl cr cf, P (Leaf d n f sh fl cr cf)) ->
   (forall d n nodes fl, Forall P nodes -> P (Wf d n nodes fl)) ->
   forall t, P t.
 Proof.
-  intros HL HW. fix IH 1. intros [d n f sh fl cr | d n nodes fl]; [apply HL|].
+  intros HL HW. fix IH 1. intros [d n f sh fl cr cf | d n nodes fl]; [apply HL|].
   apply HW. induction nodes as [|t r IHr]; constructor; [apply IH|assumption].
 Qed.
 
 Lemma run_job_wf c d name nodes fails :
   run_job c (Wf d name nodes fails) =
-  frame c true d name [] false false
+  frame c true d name [] false false false
     (fun s => let '(s', ms, rs, e) := run_nodes c nodes s in (s', ms, rs, e || fails)).
 Proof. reflexivity. Qed.
 
@@ -289,7 +289,7 @@ Lemma run_job_inv c :
   c_sharing c = false -> c_prov c = true ->
   forall t s, Inv (c_md c) s (run_job c t s).
 Proof.
-  intros Sh P. induction t as [d n f sh fl cr | d n nodes fl IH] using task_ind2; intros s.
+  intros Sh P. induction t as [d n f sh fl cr cf | d n nodes fl IH] using task_ind2; intros s.
   - cbn [run_job]. apply frame_inv; auto. intros s'. apply Inv_nil.
   - rewrite run_job_wf. apply frame_inv; auto. intros s'.
     pose proof (run_nodes_inv c nodes IH s') as H.
@@ -333,7 +333,7 @@ Qed.
 Lemma no_prov_silent c : c_prov c = false ->
   forall t s, let '(_, ms, _, _) := run_job c t s in ms = [].
 Proof.
-  intros P. induction t as [d n f sh fl cr | d n nodes fl IH] using task_ind2; intros s.
+  intros P. induction t as [d n f sh fl cr cf | d n nodes fl IH] using task_ind2; intros s.
   - cbn [run_job]. unfold frame, start_audit, monitor, finalize_audit. rewrite P.
     destruct (alloc c false (heap s)) as [r h1]. destruct (a_mon (get h1 r)); [reflexivity|].
     rewrite andb_false_r. cbn [andb].
@@ -418,7 +418,7 @@ Proof.
 Qed.
 
 (* ------------------------------------------------------------------ what sharing the Audit object did *)
-Definition wf2 : task := Wf 1 "main" [Leaf 2 "n1" [] false false false; Leaf 3 "n2" [] false false false] false.
+Definition wf2 : task := Wf 1 "main" [Leaf 2 "n1" [] false false false false; Leaf 3 "n2" [] false false false false] false.
 
 Lemma shared_audit_breaks_nested :
   forall md, In md [None; Some 0] ->
